@@ -53,6 +53,10 @@ VALUES = [
     ('-1', 'num'), ('0.5', 'num'), ('1.5', 'num'), ('-2.5', 'num'), ('3', 'num'), ('65535', 'num'), ('65536', 'num'), ('70000', 'num'),
     ('[]', 'arr'), ('[1, "a", null]', 'arr'), ('[[1], [2]]', 'arr'), ('[3, 1, 2]', 'arr'), ('["b", "a"]', 'arr'), ('[255, 0, 128]', 'arr'),
     ('{}', 'obj'), ('{a: 1}', 'obj'), ('{a:: 1, b: 2}', 'obj'), ('{a: {b: [1]}}', 'obj'),
+    # heterogeneous / awkward structures for the manifesters and structural builtins
+    ('{a: [{b: 1}, 2]}', 'obj'), ('{a: [[1], {b: 2}], "c d": {"e.f": null}}', 'obj'), ('{a: [{b: 1}, {c: [{d: 1}, "x"]}], "": 1}', 'obj'),
+    ('[{a: 1}, 2, [3, {b: []}]]', 'arr'), ('[[], {}, null, [null]]', 'arr'), ('{a: function(x) x}', 'obj'), ('{["k" + i]: i for i in [1, 2]}', 'obj'),
+    ('{a: 1} + {a+: 2, b::: 3}', 'obj'), ('["tag", {"k": "v", "q\"": 1}, "text", ["br"]]', 'arr'),
     ('function(x) x', 'fun'), ('function(x, y) x', 'fun'), ('function(x) error "e"', 'fun'),
 ]
 HUGE = re.compile(r'^-?(1\.797|9007199|2147483648|4294967296|9223372|18446744|65535|65536|70000)')
